@@ -1,14 +1,14 @@
 #!/usr/bin/env python3
-"""Record the measured wall time of every harness (max over the evidence files) in lib/timings.json.
+"""Record the measured wall time of every harness (from the newest evidence file that has it) in lib/timings.json.
 The runner uses it only to start the longest harnesses first (scheduling; no influence on any verdict)."""
 import json, glob, os
 V = os.path.dirname(os.path.dirname(os.path.abspath(__file__)))
 p = os.path.join(V, "lib", "timings.json")
 t = json.load(open(p)) if os.path.exists(p) else {}
-for f in glob.glob(os.path.join(V, "evidence", "C*.json")):
+for f in sorted(glob.glob(os.path.join(V, "evidence", "C*.json")), key=os.path.getmtime):   # newest evidence wins
     for s in json.load(open(f))["coverage"]["samples"]:
         if s.get("status") == "PASS":
             n = s["harness"].split("::")[-1]
-            t[n] = round(max(t.get(n, 0), s["wall_s"]))
+            t[n] = [round(s["wall_s"]), s.get("peak_rss_gb") or (t.get(n)[1] if isinstance(t.get(n), list) else None)]
 json.dump(dict(sorted(t.items())), open(p, "w"), indent=0)
 print(len(t), "timings")
